@@ -364,6 +364,33 @@ MANIFEST_TEXT["C07"] = {
     "design_ref": "DESIGN.md section 3 / C07",
 }
 
+PLAN["C18"] = {
+    "pkg": "c18",
+    "tests": [
+        {"name": "TestLocalization", "quick": (64000, 8), "thorough": (4000000, 16)},
+        {"name": "TestLocalizationExhaustive", "plain": True, "quick": (0, 8), "thorough": (0, 16)},
+    ],
+    "budget": {"quick": 600, "thorough": 5400},
+    "rule": "configurations = contact language in {unset, base, fra, spa, never-allowed} x 10 allowed-language lists (length 0-3, with/without "
+            "base) x translation state in {absent, [], [\"\"], same length, different length} for each of (message text, attachments, "
+            "quick replies, set_run_result category, router category name, case arguments) x (fra, spa), executed through a flow with one "
+            "send_msg, one set_run_result and one switch router. Oracle: an independent model of the fallback chain (contact language if "
+            "allowed, else environment default; then environment default if different; then base; first that is base or has a non-empty "
+            "translation wins) must predict msg_created text/attachments/quick replies (resolved independently), the locale's language "
+            "(text, else attachments, else quick replies), category_localized and the category chosen with localized (or, for wrong-length "
+            "translations, base) arguments. TestLocalization samples all 12 state variables; TestLocalizationExhaustive enumerates the "
+            "product for the three message properties completely (781250 configurations) in the thorough tier and a strided 1/20 of it in "
+            "the quick tier. Non-trivial = >= 2 candidate languages and some translation present or differing between languages; distinct "
+            "by configuration.",
+    "assumptions": COMMON_ASSUMPTIONS + ["a translation consisting of a single empty string counts as absent (the documented editor quirk)"],
+}
+MANIFEST_TEXT["C18"] = {
+    "technique": "property-based testing (rapid) plus exhaustive enumeration of the finite configuration product, against an independent model of the language fallback chain",
+    "level_text": "Exploration (sampled over 12 variables) and, in the thorough tier, complete enumeration of the 781250-configuration sub-space of message properties: every configuration matched the model.",
+    "level_note": "Languages limited to base eng plus fra/spa/kin; one flow shape.",
+    "design_ref": "DESIGN.md section 3 / C18",
+}
+
 # every property without a registered check is listed here with the reason (kept current as checks are added)
 NOT_APPLICABLE = [{"property_id": pid, "reason": "check not built yet in this round (planned in DESIGN.md); nothing is claimed for it"}
                   for pid in ALL_IDS if pid not in PLAN]
